@@ -137,6 +137,84 @@ def run_trace_ctx(w, ops, classes):
     return nodes_ev
 
 
+def run_scenarios(w):
+    """Where does a started source run?  L1 and L2 are made to run in threads of their own; a source bound to L1 (or to
+    the background loop) is started from (0) this thread, which has no running loop, (1) a callback on its own loop,
+    (5) a callback on another running loop.  Its sink records IOLoop.current() when called."""
+    import threading
+    import time as _time
+    started = []
+    for lp in (w.L1, w.L2):
+        t = threading.Thread(target=lp.start, daemon=True)
+        t.start()
+        started.append(t)
+    _time.sleep(0.05)
+    out = []
+
+    def call_on(lp, fn):
+        done = threading.Event()
+        box = {}
+
+        def cb():
+            try:
+                box["r"] = fn()
+            except Exception as e:      # noqa
+                box["e"] = repr(e)
+            done.set()
+        lp.add_callback(cb)
+        done.wait(10)
+        return box
+
+    kinds = {"from_iterable": lambda kw: Stream.from_iterable([1, 2], **kw),
+             "from_periodic": lambda kw: Stream.from_periodic(lambda: 1, 0.01, **kw)}
+    for cls, ctor in kinds.items():
+        for la, aa in ((1, 0), (1, 1), (0, 0), (0, 2)):
+            for frm in (0, 1, 5):
+                if la == 0 and frm == 1:
+                    continue            # (the background loop's thread is not ours to call into)
+                kw = {}
+                if la:
+                    kw["loop"] = w.L1
+                if aa:
+                    kw["asynchronous"] = MODE[aa]
+                c0 = w.bg_calls
+                src = ctor(kw)
+                seen = []
+                ran = threading.Event()
+
+                def rec(x, seen=seen, ran=ran):
+                    seen.append(IOLoop.current())
+                    ran.set()
+                sink = src.sink(rec)
+                ev = [{"ups": [], "la": la, "aa": aa, "ens": True, "cls": cls, "raised": False,
+                       "loop": [w.loop_id(src.loop)], "mode": [MODE_ID[src.asynchronous]], "bgNew": False},
+                      {"ups": [1], "la": 0, "aa": 0, "ens": False, "cls": "sink", "raised": False,
+                       "loop": [w.loop_id(src.loop), w.loop_id(sink.loop)],
+                       "mode": [MODE_ID[src.asynchronous], MODE_ID[sink.asynchronous]], "bgNew": False}]
+                ev[0]["bgNew"] = bool(w.bg_calls > c0)        # (per trace: the specification starts every trace without a background loop)
+                if frm == 0:
+                    src.start()
+                elif frm == 1:
+                    call_on(w.L1, src.start)
+                else:
+                    call_on(w.L2, src.start)
+                ran.wait(3)
+                on = 0
+                if seen:
+                    on = w.loop_id(seen[0])
+                    if seen[0] is w.L2:
+                        on = 5
+                ev.append({"run": 1, "from": frm, "on": on})
+                try:
+                    call_on(src.loop, src.stop)
+                except Exception:
+                    pass
+                out.append(ev)
+    for lp in (w.L1, w.L2):
+        lp.add_callback(lp.stop)
+    return out
+
+
 def choices(n):
     ups = [()] + [(u,) for u in range(1, n + 1)] + [(u, v) for u in range(1, n + 1) for v in range(1, n + 1) if u != v]
     return [(U, la, aa, ens) for U in ups for la in (0, 1, 2) for aa in (0, 1, 2) for ens in (False, True)]
@@ -204,6 +282,7 @@ def main():
             out.append(lp.run_until_complete(inside()))
         finally:
             asyncio.set_event_loop(w.cur_aio)
+    out += run_scenarios(w)
     for ops in traces:
         if ops[-1] == ("?",):
             # decide the third op once we know how many nodes exist
